@@ -11,7 +11,7 @@
    A comment statement is only derivable when what follows it is not a block keyword or a block
    terminator: there the parser swallows the comment (exp_token skips comments), see
    C06_comment_node_dropped_before_block in Properties/C06.v (a documented fact: comments are layout for C06). *)
-From GoldV Require Import Base Tokens Lexer AstKinds Tree Strings PComb Grammar Ladder RTComb LadderProofs ExprRT.
+From GoldV Require Import Base Tokens Lexer AstKinds Tree Strings PComb Grammar Ladder RTComb LadderProofs ExprRT TypeRT.
 From Coq Require Import Lia.
 
 Definition block_first : list ttype := [TIf; TFor; TForEach; TWhile; TLoop; TSwitch; TRepeat].
@@ -52,7 +52,21 @@ Qed.
 Lemma sfollow_efollow more : sfollow_h (hd_ty more) -> efollow more.
 Proof. intro H. split; apply sfollow_nostart; [reflexivity|exact H|reflexivity|exact H]. Qed.
 
-Definition head_in (F : list ttype) (ts : list tok) : Prop := exists t r, ts = t :: r /\ In (tty t) F.
+
+(* the first non-comment token of i, if any, has a type in S *)
+Definition heads (S : list ttype) (i : input) : Prop := forall ty, hd_ty i = Some ty -> In ty S.
+
+Lemma heads_nostart S X i : heads S i -> disj_b X S = true -> nostart X i.
+Proof. intros H Hd ty Hh Hx. apply (disj_b_spec _ _ _ Hd Hx). apply H. exact Hh. Qed.
+
+Lemma heads_tok S t r : In (tty t) S -> tty t <> TComment -> heads S (t :: r).
+Proof. intros H Hc ty Hh. rewrite hd_ty_cons in Hh by exact Hc. inversion Hh; subst. exact H. Qed.
+
+Lemma heads_weaken S S' i : (forall x, In x S -> In x S') -> heads S i -> heads S' i.
+Proof. intros Hi H ty Hh. apply Hi. apply H. exact Hh. Qed.
+
+Lemma sfollow_heads i : sfollow_h (hd_ty i) -> heads (stmt_first ++ stops) i.
+Proof. intros H ty Hh. rewrite Hh in H. exact H. Qed.
 
 Lemma head_in_hd F ts more : head_in F ts -> mem_ty TComment F = false -> exists ty, hd_ty (ts ++ more) = Some ty /\ In ty F.
 Proof.
@@ -65,7 +79,6 @@ Proof. intros (t & r & -> & H) Hd. cbn [app]. eapply starts_nostart; eauto. Qed.
 
 (* ---------- node builders ---------- *)
 
-Definition mk_type_basic (t : tok) : node := Node KAstTypeBasic (tval t) (traw t) (trange t) [(K_token, AT t)] [].
 Definition mk_return (rt : tok) (e : node) : node :=
   Node KAstReturnNode S_return (traw rt) (new_range (trange rt) (nrange e)) [] [e].
 Definition mk_comment (t : tok) : node := Node KAstComment S_comment (traw t) (trange t) [(K_str, AS (tval t))] [].
@@ -79,6 +92,35 @@ Definition mk_loop (lt : tok) (stmts : list node) (e : tok) : node :=
 Definition mk_repeat (rt : tok) (stmts : list node) (u : tok) (cond : node) : node :=
   let r := new_range (trange rt) (nrange cond) in
   Node KAstRepeatBlock S_repeat (traw rt) r [(K_end, AL [u])] [cb_node (mkCB (traw rt) r (Some cond) stmts)].
+Definition mk_uses (ut : tok) (ids : list tok) : node :=
+  let end_ := match rev ids with t :: _ => rend (trange t) | [] => rend (trange ut) end in
+  Node KAstUses S_uses (traw ut) (mkRange (tpos ut) end_) [(K_uses, AL ids)] [].
+Definition mk_const_ml (ct id v : tok) (ml : option tok) : node :=
+  Node KAstConstantDeclaration (tval id) (traw ct) (range_of_toks ct v)
+       [(K_ident, AT id); (K_flags, AN (b2n (match ml with Some _ => true | None => false end))); (K_value, AL [v])] [].
+Definition mk_const (ct id v : tok) : node :=
+  Node KAstConstantDeclaration (tval id) (traw ct) (range_of_toks ct v)
+       [(K_ident, AT id); (K_flags, AN 0); (K_value, AL [v])] [].
+Definition mk_type_decl (tk id : tok) (ty : node) : node :=
+  Node KAstTypeDeclaration (tval id) (traw tk) (mkRange (tpos tk) (rend (nrange ty))) [(K_ident, AT id)] [ty].
+Definition mk_local_var_abs (vt id : tok) (ty : node) (an : tok) : node :=
+  Node KAstLocalVariableDeclaration (tval id) (traw vt) (new_range (trange vt) (trange an)) [(K_ident, AT id)] [ty; mk_terminal an].
+Definition mk_foreach (ft : tok) (ie : node) (dt : option tok) (uv : option tok) (stmts : list node) (e : tok) : node :=
+  Node KAstForEachBlock S_foreach (traw ft) (new_range (trange ft) (trange e))
+       [(K_end, AL [e]); (K_flags, AN (match dt with Some _ => 1 | None => 0 end))]
+       (ie :: opt_list (option_map mk_terminal uv) ++ stmts).
+Definition mk_when (wt : tok) (we : node) (stmts : list node) (e : tok) : node :=
+  Node KAstWhenBlock S_when_block (traw wt) (new_range (trange wt) (trange e)) [] (we :: stmts).
+Definition mk_when_values (items : list node) : node :=
+  match items with
+  | first :: _ => let last := match rev items with n :: _ => n | [] => first end in
+                  Node KAstSetLiteral S_set_literal (nraw first) (new_range (nrange first) (nrange last)) [] items
+  | [] => mk_empty_default
+  end.
+Definition mk_switch_else (et : tok) (stmts : list node) (e : tok) : node :=
+  Node KAstWhenBlock S_when_block (traw et) (new_range (trange et) (trange e)) [] stmts.
+Definition mk_switch (st : tok) (se : node) (whens : list node) (els : option node) (e : tok) : node :=
+  Node KAstSwitchBlock S_switch (traw st) (new_range (trange st) (trange e)) [(K_end, AL [e])] (se :: whens ++ opt_list els).
 Definition mk_for (ft vt : tok) (rn : node) (se : option node) (stmts : list node) (e : tok) : node :=
   Node KAstForBlock S_for (traw ft) (new_range (trange ft) (trange e)) [(K_ident, AT vt); (K_end, AL [e])]
        (rn :: opt_list se ++ stmts).
@@ -87,26 +129,6 @@ Definition cb_add (b : cblock) (ns : list node) : cblock :=
 Definition mk_if (it : tok) (cond : node) (blocks : list cblock) (e : tok) : node :=
   Node KAstIfBlock S_if (traw it) (new_range (new_range (trange it) (nrange cond)) (trange e))
        [(K_end, AL [e])] (map cb_node blocks).
-
-(* ---------- types (basic only) ---------- *)
-
-Inductive TypeR : rel :=
-| T_basic t : tty t = TIdentifier -> TypeR [t] (mk_type_basic t).
-
-Definition tfollow (more : input) : Prop := nostart [TOBracket; TPlus] more.
-
-Lemma type_parses rec ts n more : TypeR ts n -> tfollow more -> Parses (parse_type_body rec) (ts ++ more) more n.
-Proof.
-  intros H Hf. destruct H as [t Ht]. cbn [app]. unfold parse_type_body, alt.
-  assert (Parses parse_type_basic (t :: more) more (mk_type_basic t)) as Hb.
-  { unfold parse_type_basic. eapply Parses_bind; [apply tok_alt_in; [left; auto|reflexivity]|]. apply Parses_ret. }
-  apply alt_go_skip.
-  { unfold parse_type_sized. eapply Fails_bind_r; [apply exp_token_ok; exact Ht|]. apply Fails_bind_l.
-    eapply FailsAt_Fails. apply exp_token_nostart; [discriminate|]. sub_nostart Hf. }
-  intro b1. apply alt_go_here. unfold parse_type_composed. apply binops_single.
-  - unfold alt. apply alt_go_here. exact Hb.
-  - eapply FailsAt_Fails. apply exp_token_nostart; [discriminate|]. sub_nostart Hf.
-Qed.
 
 (* ---------- the statement dispatcher ---------- *)
 
@@ -243,6 +265,24 @@ Section StmtLevel.
       IfTail k (mkCB (traw t) (trange t) None []) tail (pre, last, e) ->
       IfTail (S k) cur (body ++ t :: tail) (cb_update (cb_add cur ns) :: pre, last, e).
 
+  (* the value list / range of a `when` *)
+  Inductive WVal : list tok -> node -> Prop :=
+  | WV_tok t : In (tty t) (literal_types ++ ident_types) -> WVal [t] (mk_terminal t).
+  Definition WhenVals : list tok -> list node -> Prop := Args TComma WVal.
+  Inductive WhenExpr : list tok -> node -> Prop :=
+  | WE_range lo k hi : In (tty lo) literal_types -> tty k = TTo -> In (tty hi) literal_types ->
+      WhenExpr [lo; k; hi] (mk_binop k (mk_terminal lo) (mk_terminal hi))
+  | WE_values ts ns : WhenVals ts ns -> WhenExpr ts (mk_when_values ns).
+  (* when-blocks of a switch *)
+  Inductive Whens : list tok -> list node -> Prop :=
+  | Wh_nil : Whens [] []
+  | Wh_cons wt wets we body ns e rest ws : tty wt = TWhen -> WhenExpr wets we -> Seq RS (Some TEndWhen) body ns ->
+      tty e = TEndWhen -> Whens rest ws -> Whens (wt :: wets ++ body ++ e :: rest) (mk_when wt we ns e :: ws).
+  (* the optional else part (its statements run up to endswitch) *)
+  Inductive SwitchElse : list tok -> option (tok * list node) -> Prop :=
+  | SE_none : SwitchElse [] None
+  | SE_some et body ns : tty et = TElse -> Seq RS (Some TEndSwitch) body ns -> SwitchElse (et :: body) (Some (et, ns)).
+
   Inductive Stmt : list tok -> node -> Prop :=
   | S_assign tl nl op tr nr : GDots (S f) tl nl -> head_in [TIdentifier] tl -> In (tty op) assign_ops ->
       GExpr (S f) tr nr -> Stmt (tl ++ op :: tr) (mk_binop op nl nr)
@@ -252,7 +292,7 @@ Section StmtLevel.
   | S_return rt ts n : tty rt = TReturn -> GExpr (S f) ts n -> Stmt (rt :: ts) (mk_return rt n)
   | S_control t : In (tty t) [TExit; TBreak; TContinue] -> Stmt [t] (mk_terminal t)
   | S_comment c : tty c = TComment -> Stmt [c] (mk_comment c)
-  | S_var vt id col tts tn : tty vt = TVar -> tty id = TIdentifier -> tty col = TColon -> TypeR tts tn ->
+  | S_var vt id col tts tn : tty vt = TVar -> tty id = TIdentifier -> tty col = TColon -> GType (S f) tts tn ->
       Stmt (vt :: id :: col :: tts) (mk_local_var vt id tn)
   | S_while wt cts cn body ns e : tty wt = TWhile -> GExpr (S f) cts cn -> Seq RS (Some (tty e)) body ns ->
       In (tty e) [TEndWhile; TEnd] -> Stmt (wt :: cts ++ body ++ [e]) (mk_while wt cn ns e)
@@ -269,6 +309,23 @@ Section StmtLevel.
       Seq RS (Some (tty e)) body ns -> In (tty e) [TEndFor; TEnd] ->
       Stmt (ft :: vt :: eq :: lts ++ top :: hts ++ stp :: sts ++ body ++ [e])
            (mk_for ft vt (mk_binop top ln hn) (Some sn) ns e)
+  | S_var_abs vt id col tts tn ak an : tty vt = TVar -> tty id = TIdentifier -> tty col = TColon -> GType (S f) tts tn ->
+      tty ak = TAbsolute -> In (tty an) ident_types -> Stmt (vt :: id :: col :: tts ++ [ak; an]) (mk_local_var_abs vt id tn an)
+  | S_uses ut ts ids : tty ut = TUses -> TokList TIdentifier TComma ts ids -> Stmt (ut :: ts) (mk_uses ut ids)
+  | S_const ct id eq v ml : tty ct = TConst -> tty id = TIdentifier -> tty eq = TEquals ->
+      In (tty v) [TStringLiteral; TNumericLiteral] -> match ml with Some m => tty m = TMultiLang | None => True end ->
+      Stmt (ct :: id :: eq :: v :: opt_list ml) (mk_const_ml ct id v ml)
+  | S_typedecl tk id col tts tn : tty tk = TType -> tty id = TIdentifier -> tty col = TColon -> GType (S f) tts tn ->
+      Stmt (tk :: id :: col :: tts) (mk_type_decl tk id tn)
+  | S_foreach ft ets en dt ut body ns e : tty ft = TForEach -> GExpr (S f) ets en ->
+      match dt with Some d => tty d = TDownTo | None => True end ->
+      match ut with Some (uk, uv) => tty uk = TUsing /\ In (tty uv) ident_types | None => True end ->
+      Seq RS (Some (tty e)) body ns -> In (tty e) [TEndFor; TEnd] ->
+      Stmt (ft :: ets ++ opt_list dt ++ (match ut with Some (uk, uv) => [uk; uv] | None => [] end) ++ body ++ [e])
+           (mk_foreach ft en dt (option_map snd ut) ns e)
+  | S_switch st ets en wts whens elts els e : tty st = TSwitch -> GExpr (S f) ets en -> Whens wts whens ->
+      SwitchElse elts els -> tty e = TEndSwitch ->
+      Stmt (st :: ets ++ wts ++ elts ++ [e]) (mk_switch st en whens (option_map (fun x => mk_switch_else (fst x) (snd x) e) els) e)
   | S_if it cts cn k tail pre last e : tty it = TIf -> GExpr (S f) cts cn ->
       IfTail k (mkCB (traw it) (new_range (trange it) (trange it)) (Some cn) []) tail (pre, last, e) ->
       Stmt (it :: cts ++ tail) (mk_if it cn (pre ++ [last]) e).
@@ -291,6 +348,12 @@ Section StmtLevel.
     - eapply K; [exact H|reflexivity|discriminate].
     - destruct H as [E|[E|[E|[]]]]; (eapply K; [symmetry; exact E|reflexivity|discriminate]).
     - split; [discriminate|]. intros ty Hh. simpl in Hh. unfold is_comment in Hh. rewrite H, tt_eqb_refl in Hh. discriminate.
+    - eapply K; [exact H|reflexivity|discriminate].
+    - eapply K; [exact H|reflexivity|discriminate].
+    - eapply K; [exact H|reflexivity|discriminate].
+    - eapply K; [exact H|reflexivity|discriminate].
+    - eapply K; [exact H|reflexivity|discriminate].
+    - eapply K; [exact H|reflexivity|discriminate].
     - eapply K; [exact H|reflexivity|discriminate].
     - eapply K; [exact H|reflexivity|discriminate].
     - eapply K; [exact H|reflexivity|discriminate].
@@ -521,6 +584,93 @@ Section StmtLevel.
     (let b := match pre with [] => (last, []) | d :: ds => (d, ds ++ [last]) end in fst b :: snd b) = pre ++ [last].
   Proof. destruct pre; reflexivity. Qed.
 
+  (* ---------- switch ---------- *)
+
+  Lemma wval_parses ts n more : WVal ts n -> Parses (alt [parse_literal_basic; parse_identifier]) (ts ++ more) more n.
+  Proof.
+    intros [t Ht]. cbn [app]. apply in_app_or in Ht as [Ht|Ht]; unfold alt.
+    - apply alt_go_here. apply parse_literal_basic_ok. exact Ht.
+    - apply alt_go_skip.
+      + eapply FailsAt_Fails. apply parse_literal_basic_failsat. eapply (nostart_cons _ ident_types); [exact Ht|reflexivity].
+      + intro b. apply alt_go_here. apply parse_identifier_ok. exact Ht.
+  Qed.
+
+  Lemma when_expr_parses ts n more : WhenExpr ts n -> nostart [TComma; TTo] more -> Parses parse_when_expr (ts ++ more) more n.
+  Proof.
+    intros H Hf. unfold parse_when_expr, alt. destruct H as [lo k hi Hlo Hk Hhi|ts ns Hv].
+    - cbn [app]. apply alt_go_here. unfold parse_to_op.
+      eapply Parses_bind; [apply parse_literal_basic_ok; exact Hlo|]. cbv beta.
+      eapply Parses_bind; [apply exp_token_ok; exact Hk|]. cbv beta.
+      eapply Parses_bind; [apply parse_literal_basic_ok; exact Hhi|]. cbv beta. apply Parses_ret.
+    - assert (Parses (sep_list (alt [parse_literal_basic; parse_identifier]) TComma) (ts ++ more) more ns) as Hsl.
+      { eapply (sep_list_args _ _ TComma WVal (fun _ => True)); [intros; apply wval_parses; assumption|auto|discriminate|exact Hv|exact I|sub_nostart Hf]. }
+      apply alt_go_skip.
+      { (* parse_to_op fails: no `to` after the first value *)
+        unfold parse_to_op. destruct Hv as [ts n [t Ht]|ts n cm ts' ns [t Ht] Hcm Hrest]; cbn [app]; rewrite <- ?app_assoc; cbn [app];
+          apply in_app_or in Ht as [Ht|Ht].
+        - eapply Fails_bind_r; [apply parse_literal_basic_ok; exact Ht|]. apply Fails_bind_l. eapply FailsAt_Fails.
+          apply exp_token_nostart; [discriminate|sub_nostart Hf].
+        - apply Fails_bind_l. eapply FailsAt_Fails. apply parse_literal_basic_failsat.
+          eapply (nostart_cons _ ident_types); [exact Ht|reflexivity].
+        - eapply Fails_bind_r; [apply parse_literal_basic_ok; exact Ht|]. apply Fails_bind_l. eapply FailsAt_Fails.
+          apply exp_token_nostart; [discriminate|eapply nostart_ty; [exact Hcm|reflexivity]].
+        - apply Fails_bind_l. eapply FailsAt_Fails. apply parse_literal_basic_failsat.
+          eapply (nostart_cons _ ident_types); [exact Ht|reflexivity]. }
+      intro b. apply alt_go_here. unfold parse_separated_values.
+      eapply Parses_bind; [exact Hsl|]. cbv beta.
+      pose proof (Args_length _ _ _ _ Hv) as Hl. destruct ns as [|n0 ns']; [simpl in Hl; lia|]. apply Parses_ret.
+  Qed.
+
+  Lemma when_block_parses wt wets we body ns e more : tty wt = TWhen -> WhenExpr wets we -> Seq RS (Some TEndWhen) body ns ->
+    tty e = TEndWhen -> Parses (parse_when_block rs) (wt :: wets ++ body ++ e :: more) more (mk_when wt we ns e).
+  Proof.
+    intros Hwt Hwe Hseq He. unfold parse_when_block.
+    eapply Parses_bind; [apply exp_token_ok; exact Hwt|]. cbv beta.
+    rewrite <- He in Hseq.
+    eapply Parses_bind.
+    { apply when_expr_parses; [exact Hwe|]. apply sfollow_nostart; [reflexivity|].
+      eapply Seq_hd; [exact Hseq|apply hd_ty_cons; rewrite He; discriminate|]. rewrite He. cbn [sfollow_h]. apply in_or_app. right. simpl. tauto. }
+    cbv beta. eapply Parses_bind.
+    { apply (body_until (exp_token TEndWhen) [TEndWhen] body ns e more Hseq ltac:(left; auto)).
+      - apply stop_exp_token. discriminate.
+      - apply exp_token_ok. exact He.
+      - reflexivity.
+      - reflexivity.
+      - intros x Hx. simpl in Hx. simpl. tauto. }
+    cbv beta iota. apply Parses_ret.
+  Qed.
+
+  Lemma whens_chain wts whens tail : Whens wts whens -> Chain (parse_when_block rs) (fail []) tail (wts ++ tail) whens.
+  Proof.
+    induction 1 as [|wt wets we body ns e rest ws Hwt Hwe Hseq He Hrest IH]; [apply Ch_nil|].
+    cbn [app]. rewrite <- ?app_assoc. cbn [app].
+    eapply Ch_cons; [discriminate|apply Fails_fail| |exact IH].
+    replace (wt :: wets ++ body ++ e :: rest ++ tail) with (wt :: wets ++ body ++ e :: (rest ++ tail)) by reflexivity.
+    apply when_block_parses; assumption.
+  Qed.
+
+  Lemma Whens_len wts whens : Whens wts whens -> (length whens <= length wts)%nat.
+  Proof. induction 1; cbn [length]; [lia|]. rewrite !app_length. cbn [length]. lia. Qed.
+
+  Lemma switch_else_parses elts els e more : SwitchElse elts els -> tty e = TEndSwitch ->
+    Parses (parse_switch_else_block rs) (elts ++ e :: more) more
+           (option_map (fun x => mk_switch_else (fst x) (snd x) e) els, Some e).
+  Proof.
+    intros H He. unfold parse_switch_else_block. destruct H as [|et body ns Het Hseq]; cbn [app option_map fst snd].
+    - eapply Parses_bind; [apply Parses_rae_none; apply exp_token_nostart; [discriminate|eapply nostart_ty; [exact He|reflexivity]]|].
+      cbv beta iota. eapply Parses_bind; [apply Parses_opt_some; apply exp_token_ok; exact He|]. cbv beta. apply Parses_ret.
+    - eapply Parses_bind; [apply Parses_rae_some; apply exp_token_ok; exact Het|]. cbv beta iota.
+      rewrite <- He in Hseq.
+      eapply Parses_bind.
+      { apply (body_until (exp_token TEndSwitch) [TEndSwitch] body ns e more Hseq ltac:(left; auto)).
+        - apply stop_exp_token. discriminate.
+        - apply exp_token_ok. exact He.
+        - reflexivity.
+        - reflexivity.
+        - intros x Hx. simpl in Hx. simpl. tauto. }
+      cbv beta iota. apply Parses_ret.
+  Qed.
+
   (* ---------- every derivable statement is parsed into its tree ---------- *)
 
   Theorem stmt_parses ts n more : Stmt ts n -> follow_ok ts (hd_ty more) ->
@@ -532,6 +682,12 @@ Section StmtLevel.
                   |rt body ns u cts cn Hrt Hseq Hu Hc
                   |ft vt eq lts ln top hts hn body ns e Hft Hvt Heq Hlo Htop Hhi Hseq He
                   |ft vt eq lts ln top hts hn stp sts sn body ns e Hft Hvt Heq Hlo Htop Hhi Hstp Hst Hseq He
+                  |vt id col tts tn ak an Hvt Hid Hcol Hty Hak Han
+                  |ut uts ids Hut Hl
+                  |ct id eq v ml Hct Hid Heq Hv Hml
+                  |tk id col tts tn Htk Hid Hcol Hty
+                  |ft ets en dt ut body ns e Hft Hen Hdt Hut Hseq He
+                  |st ets en wts whens elts els e Hst Hen Hwh Hel He
                   |it cts cn k tail pre last e Hit Hc Htail].
     - (* assignment *)
       destruct Hhd as (t & r & -> & [Ht|[]]). rewrite <- app_assoc. cbn [app]. apply ident_stmt; [auto|].
@@ -610,7 +766,7 @@ Section StmtLevel.
       eapply Parses_bind; [apply exp_token_ok; exact Hvt|]. cbv beta.
       eapply Parses_bind; [apply exp_token_ok; exact Hid|]. cbv beta.
       eapply Parses_bind; [apply exp_token_ok; exact Hcol|]. cbv beta.
-      eapply Parses_bind; [apply type_parses; [exact Hty|apply sfollow_nostart; [reflexivity|exact Hfo]]|]. cbv beta.
+      eapply Parses_bind; [apply gram_type_rt; [exact Hty|apply sfollow_nostart; [reflexivity|exact Hfo]]|]. cbv beta.
       eapply Parses_bind.
       { apply Parses_opt_none. eapply FailsAt_Fails. apply exp_token_nostart; [discriminate|].
         apply sfollow_nostart; [reflexivity|exact Hfo]. }
@@ -744,6 +900,143 @@ Section StmtLevel.
         - reflexivity.
         - intros x Hx. simpl in Hx. simpl. tauto. }
       cbv beta iota. apply Parses_ret.
+    - (* var x : T absolute y *)
+      cbn [app]. rewrite <- app_assoc. cbn [app]. rewrite stmt_is_shape.
+      assert (nostart (block_first ++ [TUses; TConst; TOSqrBracket; TType]) (vt :: id :: col :: tts ++ ak :: an :: more)) as Hn
+        by (eapply nostart_ty; [exact Hvt|reflexivity]).
+      apply shape_simple; [apply blocks_fail; sub_nostart Hn|]. unfold simples, alt.
+      apply alt_go_skip; [apply comment_fails; rewrite Hvt; discriminate|]. intro b1.
+      apply alt_go_skip; [apply uses_fails; sub_nostart Hn|]. intro b2.
+      apply alt_go_skip; [apply const_fails; sub_nostart Hn|]. intro b3.
+      apply alt_go_skip; [apply typedecl_fails; sub_nostart Hn|]. intro b4.
+      apply alt_go_here. unfold parse_local_var_decl.
+      eapply Parses_bind; [apply exp_token_ok; exact Hvt|]. cbv beta.
+      eapply Parses_bind; [apply exp_token_ok; exact Hid|]. cbv beta.
+      eapply Parses_bind; [apply exp_token_ok; exact Hcol|]. cbv beta.
+      eapply Parses_bind; [apply gram_type_rt; [exact Hty|eapply nostart_ty; [exact Hak|reflexivity]]|]. cbv beta.
+      eapply Parses_bind; [apply Parses_opt_some; apply exp_token_ok; exact Hak|]. cbv beta iota.
+      eapply Parses_bind; [eapply Parses_bind; [apply parse_identifier_ok; exact Han|apply Parses_ret]|]. cbv beta iota. apply Parses_ret.
+    - (* uses a, b *)
+      cbn [app]. rewrite stmt_is_shape.
+      assert (nostart block_first (ut :: uts ++ more)) as Hn by (eapply nostart_ty; [exact Hut|reflexivity]).
+      apply shape_simple; [apply blocks_fail; exact Hn|]. unfold simples, alt.
+      apply alt_go_skip; [apply comment_fails; rewrite Hut; discriminate|]. intro b1. apply alt_go_here.
+      unfold parse_uses. eapply Parses_bind; [apply exp_token_ok; exact Hut|]. cbv beta.
+      eapply Parses_bind; [apply sep_tokens_ok; [discriminate|exact Hl|apply sfollow_nostart; [reflexivity|exact Hfo]]|].
+      cbv beta. apply Parses_ret.
+    - (* const c = v *)
+      cbn [app]. rewrite stmt_is_shape.
+      assert (nostart (block_first ++ [TUses]) (ct :: id :: eq :: v :: opt_list ml ++ more)) as Hn by (eapply nostart_ty; [exact Hct|reflexivity]).
+      apply shape_simple; [apply blocks_fail; sub_nostart Hn|]. unfold simples, alt.
+      apply alt_go_skip; [apply comment_fails; rewrite Hct; discriminate|]. intro b1.
+      apply alt_go_skip; [apply uses_fails; sub_nostart Hn|]. intro b2. apply alt_go_here.
+      unfold parse_constant_declaration.
+      eapply Parses_bind; [apply Parses_prepend; apply exp_token_ok; exact Hct|]. cbv beta.
+      eapply Parses_bind; [apply Parses_prepend; apply exp_token_ok; exact Hid|]. cbv beta.
+      eapply Parses_bind; [apply Parses_prepend; apply exp_token_ok; exact Heq|]. cbv beta.
+      eapply Parses_bind; [apply Parses_prepend; apply tok_alt_in; [exact Hv|reflexivity]|]. cbv beta.
+      destruct ml as [m|]; cbn [opt_list app].
+      + eapply Parses_bind; [apply Parses_rae_some; apply exp_token_ok; exact Hml|]. cbv beta iota. apply Parses_ret.
+      + eapply Parses_bind.
+        { apply Parses_rae_none. apply exp_token_nostart; [discriminate|]. apply sfollow_nostart; [reflexivity|exact Hfo]. }
+        cbv beta iota. apply Parses_ret.
+    - (* type t : T *)
+      cbn [app]. rewrite stmt_is_shape.
+      assert (nostart (block_first ++ [TUses; TConst; TOSqrBracket]) (tk :: id :: col :: tts ++ more)) as Hn by (eapply nostart_ty; [exact Htk|reflexivity]).
+      apply shape_simple; [apply blocks_fail; sub_nostart Hn|]. unfold simples, alt.
+      apply alt_go_skip; [apply comment_fails; rewrite Htk; discriminate|]. intro b1.
+      apply alt_go_skip; [apply uses_fails; sub_nostart Hn|]. intro b2.
+      apply alt_go_skip; [apply const_fails; sub_nostart Hn|]. intro b3. apply alt_go_here.
+      unfold parse_type_declaration. eapply Parses_bind; [apply annot_opt_none; sub_nostart Hn|]. cbv beta.
+      eapply Parses_bind; [apply (seq_tokens_ok _ [tk; id; col]); cbn [map]; rewrite Htk, Hid, Hcol; reflexivity|]. cbv beta iota.
+      eapply Parses_bind; [apply gram_type_rt; [exact Hty|apply sfollow_nostart; [reflexivity|exact Hfo]]|]. cbv beta. apply Parses_ret.
+    - (* foreach e [downto] [using v] ... endfor *)
+      cbn [app]. rewrite <- ?app_assoc. rewrite stmt_is_shape.
+      assert (mem_ty (tty e) stops = true /\ tty e <> TComment) as [Hes Hec].
+      { destruct He as [<-|[<-|[]]]; split; try reflexivity; discriminate. }
+      assert (sfollow_h (hd_ty (body ++ [e] ++ more))) as Hbh.
+      { eapply Seq_hd; [exact Hseq|apply hd_ty_cons; exact Hec|]. cbn [sfollow_h]. apply in_or_app. right. apply mem_ty_In. exact Hes. }
+      set (utoks := match ut with Some (uk, uv) => [uk; uv] | None => [] end) in *.
+      set (SS := stmt_first ++ stops) in *.
+      pose proof (sfollow_heads _ Hbh) as Hb. fold SS in Hb.
+      assert (heads (TUsing :: SS) (utoks ++ body ++ [e] ++ more)) as Hu.
+      { unfold utoks. destruct ut as [[uk uv]|].
+        - destruct Hut as [Huk _]. cbn [app]. apply heads_tok; [left; auto|rewrite Huk; discriminate].
+        - cbn [app]. eapply heads_weaken; [|exact Hb]. intros x Hx. right. exact Hx. }
+      assert (heads (TDownTo :: TUsing :: SS) (opt_list dt ++ utoks ++ body ++ [e] ++ more)) as Hd.
+      { destruct dt as [d|]; cbn [opt_list app].
+        - apply heads_tok; [left; auto|rewrite Hdt; discriminate].
+        - eapply heads_weaken; [|exact Hu]. intros x Hx. right. exact Hx. }
+      apply (shape_block [parse_if_block pe rs; parse_for_block pe rs]).
+      { repeat (apply Forall_cons || apply Forall_nil); [unfold parse_if_block|unfold parse_for_block];
+          apply Fails_bind_l; eapply FailsAt_Fails; (apply exp_token_nostart; [discriminate|]);
+          (eapply nostart_ty; [exact Hft|reflexivity]). }
+      unfold parse_foreach_block.
+      eapply Parses_bind; [apply exp_token_ok; exact Hft|]. cbv beta.
+      eapply Parses_bind.
+      { apply binops_single.
+        - unfold alt. apply alt_go_skip.
+          + apply oql_fails. eapply head_in_nostart'; [apply (GExpr_head _ _ _ Hen)|reflexivity].
+          + intro b. apply alt_go_here. apply pe_parses; [exact Hen|]. split; (eapply heads_nostart; [exact Hd|reflexivity]).
+        - eapply FailsAt_Fails. apply exp_token_nostart; [discriminate|]. eapply heads_nostart; [exact Hd|reflexivity]. }
+      cbv beta. eapply Parses_bind.
+      { instantiate (1 := dt). instantiate (1 := utoks ++ body ++ [e] ++ more). destruct dt as [d|]; cbn [opt_list app].
+        - apply Parses_opt_some. apply exp_token_ok. exact Hdt.
+        - apply Parses_opt_none. eapply FailsAt_Fails. apply exp_token_nostart; [discriminate|].
+          eapply heads_nostart; [exact Hu|reflexivity]. }
+      cbv beta. unfold utoks. destruct ut as [[uk uv]|]; cbn [app option_map snd].
+      + destruct Hut as [Huk Huv].
+        eapply Parses_bind; [apply Parses_opt_some; apply exp_token_ok; exact Huk|]. cbv beta iota.
+        eapply Parses_bind; [eapply Parses_bind; [apply parse_identifier_ok; exact Huv|apply Parses_ret]|]. cbv beta.
+        eapply Parses_bind.
+        { apply (body_until (tok_alt [TEndFor; TEnd]) [TEndFor; TEnd] body ns e more Hseq He).
+          - apply stop_tok_alt; [discriminate|reflexivity].
+          - apply tok_alt_in; [exact He|reflexivity].
+          - reflexivity.
+          - reflexivity.
+          - intros x Hx. simpl in Hx. simpl. tauto. }
+        cbv beta iota. apply Parses_ret.
+      + eapply Parses_bind.
+        { apply Parses_opt_none. eapply FailsAt_Fails. apply exp_token_nostart; [discriminate|].
+          apply sfollow_nostart; [reflexivity|exact Hbh]. }
+        cbv beta iota. eapply Parses_bind; [apply Parses_ret|]. cbv beta.
+        eapply Parses_bind.
+        { apply (body_until (tok_alt [TEndFor; TEnd]) [TEndFor; TEnd] body ns e more Hseq He).
+          - apply stop_tok_alt; [discriminate|reflexivity].
+          - apply tok_alt_in; [exact He|reflexivity].
+          - reflexivity.
+          - reflexivity.
+          - intros x Hx. simpl in Hx. simpl. tauto. }
+        cbv beta iota. apply Parses_ret.
+    - (* switch *)
+      cbn [app]. rewrite <- ?app_assoc. cbn [app]. rewrite stmt_is_shape.
+      assert (nostart [TIf; TFor; TForEach; TWhile; TLoop] (st :: ets ++ wts ++ elts ++ e :: more)) as Hn
+        by (eapply nostart_ty; [exact Hst|reflexivity]).
+      apply (shape_block [parse_if_block pe rs; parse_for_block pe rs; parse_foreach_block pe pd pc rs; parse_while_block pe rs;
+                          parse_loop_block rs]).
+      { repeat (apply Forall_cons || apply Forall_nil);
+          [unfold parse_if_block|unfold parse_for_block|unfold parse_foreach_block|unfold parse_while_block|unfold parse_loop_block];
+          apply Fails_bind_l; eapply FailsAt_Fails; (apply exp_token_nostart; [discriminate|]); sub_nostart Hn. }
+      (* what follows the when-blocks: else ... endswitch *)
+      assert (forall X, mem_ty TElse (TComment :: X) = false -> mem_ty TEndSwitch (TComment :: X) = false ->
+                        nostart X (elts ++ e :: more)) as Htail.
+      { intros X H1 H2. destruct Hel as [|et body ns Het _]; cbn [app]; (eapply nostart_ty; [eassumption|assumption]). }
+      assert (forall X, mem_ty TWhen (TComment :: X) = false -> mem_ty TElse (TComment :: X) = false ->
+                        mem_ty TEndSwitch (TComment :: X) = false -> nostart X (wts ++ elts ++ e :: more)) as Hwt.
+      { intros X H0 H1 H2. destruct Hwh as [|wt wets we body ns ew rest ws Hwt' _ _ _ _]; cbn [app]; [apply Htail; assumption|].
+        eapply nostart_ty; [exact Hwt'|assumption]. }
+      unfold parse_switch_block.
+      eapply Parses_bind; [apply exp_token_ok; exact Hst|]. cbv beta.
+      eapply Parses_bind; [apply pe_parses; [exact Hen|split; apply Hwt; reflexivity]|]. cbv beta.
+      eapply Parses_bind.
+      { apply (until_no_match_chain _ (fail []) (elts ++ e :: more)).
+        - unfold parse_when_block. apply Fails_bind_l. eapply FailsAt_Fails. apply exp_token_nostart; [discriminate|].
+          apply Htail; reflexivity.
+        - apply whens_chain. exact Hwh.
+        - pose proof (Whens_len _ _ Hwh). rewrite app_length. lia. }
+      cbv beta. eapply Parses_bind.
+      { apply (switch_else_parses elts els e more Hel He). }
+      cbv beta iota. destruct els as [[et ens]|]; apply Parses_ret.
     - (* if *)
       cbn [app]. rewrite <- !app_assoc. rewrite stmt_is_shape.
       apply (shape_block []); [apply Forall_nil|].
@@ -801,12 +1094,20 @@ Proof.
   - apply S_return; auto.
   - apply S_control; auto.
   - apply S_comment; auto.
-  - apply S_var; auto.
+  - apply S_var; auto. apply (GType_mono (S f) (S f')); [lia|assumption].
   - apply S_while; auto. eapply Seq_mono; eauto.
   - apply S_loop; auto. eapply Seq_mono; eauto.
   - apply S_repeat; auto. eapply Seq_mono; eauto.
   - apply S_for; auto. eapply Seq_mono; eauto.
   - apply S_for_step; auto. eapply Seq_mono; eauto.
+  - apply S_var_abs; auto. apply (GType_mono (S f) (S f')); [lia|assumption].
+  - apply S_uses; auto.
+  - apply S_const; auto.
+  - apply S_typedecl; auto. apply (GType_mono (S f) (S f')); [lia|assumption].
+  - apply S_foreach; auto. eapply Seq_mono; eauto.
+  - apply S_switch; auto.
+    + match goal with Hw : Whens _ _ _ |- _ => induction Hw; [apply Wh_nil|apply Wh_cons; auto; eapply Seq_mono; eauto] end.
+    + match goal with Hs : SwitchElse _ _ _ |- _ => destruct Hs; [apply SE_none|apply SE_some; auto; eapply Seq_mono; eauto] end.
   - eapply S_if; auto. eapply IfTail_mono; eauto.
 Qed.
 
